@@ -212,6 +212,46 @@ Theorem C07_served_stack_is_rootfs :
 Proof. exact served_stack_is_rootfs. Qed.
 Print Assumptions C07_served_stack_is_rootfs.
 
+(* What the two folds put under a name of one directory (children a map): the overlay side decides from what the node API
+   serves (overlay_origin = lookup_spec + served opaque xattr), the OCI side from the marker files (oci_origin); an upper
+   directory continues into the lower directory of the same name exactly when the respective child rule says so. These are
+   the equations the whole-tree theorem is proved from, path component by path component. *)
+Theorem C07_overlay_dir_contents :
+  forall c self kids lower n, NoDup (map fst kids) ->
+    alookup (over_tree c (LT self kids) lower) n =
+    match overlay_origin c self (view kids) true n with
+    | Absent => None
+    | FromLower => alookup lower n
+    | FromUpper e a =>
+        match alookup kids n with
+        | Some tn => Some (RN e a (if is_dir_attr a
+                                   then over_tree (sub_cfg c) tn
+                                          (if overlay_child_sees_lower c self (view kids) (lower_is_dir lower n) n then lower_kids lower n else [])
+                                   else []))
+        | None => None
+        end
+    end.
+Proof. exact over_lookup. Qed.
+Print Assumptions C07_overlay_dir_contents.
+
+Theorem C07_oci_dir_contents :
+  forall c self kids lower n, NoDup (map fst kids) -> image_name c n = true ->
+    alookup (oci_tree c (LT self kids) lower) n =
+    match oci_origin c (view kids) true n with
+    | Absent => None
+    | FromLower => alookup lower n
+    | FromUpper e a =>
+        match alookup kids n with
+        | Some tn => Some (RN e a (if is_dir_attr a
+                                   then oci_tree (sub_cfg c) tn
+                                          (if oci_child_sees_lower c (view kids) (lower_is_dir lower n) n then lower_kids lower n else [])
+                                   else []))
+        | None => None
+        end
+    end.
+Proof. exact oci_lookup. Qed.
+Print Assumptions C07_oci_dir_contents.
+
 (* without the allowed class the statement is false: the property's excluded class (directory d + whiteout .wh.d over a
    lower d/x: overlayfs still shows d/x, the image does not) ... *)
 Definition ex_dirmode : Z := 2^31 + 493.
